@@ -598,6 +598,7 @@ class Agg:
         self.witness_hits += s.get('witness_hits', 0)
         self.wall += s.get('wall_s', 0.0)
         self.inf_events += s.get('inf_events', 0)
+        self.narrowings = getattr(self, 'narrowings', 0) + s.get('narrowings', 0)
 
     def add_log(self, path, keep_leaf=None):
         for r in iter_log(path):
